@@ -19,13 +19,15 @@ SPEC = {
             "catch handler of an unrelated exception / destructor on normal scope exit / destructor during stack unwinding "
             "of an unrelated exception (failure caught inside the destructor) / second thread started from an unwinding "
             "destructor; verdict, file, line, message, what() must equal the direct context's. errno is poisoned before "
-            "every call. Call sites on lines 999..2147483000 (#line) under a digit-grouping global locale: what() must contain file, message and the plain decimal line. Operands with side effects (counter call, x++, --x, counting functor, invoked lambda, StringReader::get_u8) as first/second operand of every macro: evaluated exactly once, verdict from that evaluation. expect/expect_msg with 55 non-bool predicates (fractions, denormals, NaN, __int128 and 64-bit values with zero low bits, pointers, enums, implicit-bool class). Carried values (TU c19_carry, optional build): runtime messages of 0, 1, 2, 2^k-1, 2^k, 2^k+1 (k = 4..16), 2^20, 2^20+1 characters in four byte patterns (exact compare, exactly sized heap block); stringified messages of exactly those lengths for every relation macro and expect() through preprocessor-generated operands (integer sums up to 2^10, string literals above; long operand first / second); file names of those lengths with directory components and ten names of unusual shape, line numbers 1, 9, 10, 99, 100, 255, 256, 32767, 32768, 65535, 65536, 2^31-1 (#line), each row holding all eight macros and five failure paths of expect_raises; every failing call observed in 13 ways (caught object, copy, copy outliving the original, move, assignment, logic_error& / exception& + dynamic_cast, rethrow, exception_ptr here and from an exited thread, nested, make_exception_ptr, sliced): msg / file compared as full C strings, line as a number, what() must contain file, decimal line and message. Second TU (optional build): expect_raises with E in {plain struct, derived plain struct, std::string, int, type with ambiguous std::exception base, virtual-base and diamond types, exception, runtime_error, logic_error} x fn in {returns, throws each of ten exotic/standard types}, is-a from an explicit table cross-checked against real catch clauses. distinct_nontrivial = distinct (relation, operand type, order shape, expected "
+            "every call. Call sites on lines 999..2147483000 (#line) under a digit-grouping global locale: what() must contain file, message and the plain decimal line. Operands with side effects (counter call, x++, --x, counting functor, invoked lambda, StringReader::get_u8) as first/second operand of every macro: evaluated exactly once, verdict from that evaluation. expect/expect_msg with 55 non-bool predicates (fractions, denormals, NaN, __int128 and 64-bit values with zero low bits, pointers, enums, implicit-bool class). Carried values (TU c19_carry, optional build): runtime messages of 0, 1, 2, 2^k-1, 2^k, 2^k+1 (k = 4..16), 2^20, 2^20+1 characters in four byte patterns (exact compare, exactly sized heap block); stringified messages of exactly those lengths for every relation macro and expect() through preprocessor-generated operands (integer sums up to 2^10, string literals above; long operand first / second); file names of those lengths with directory components and ten names of unusual shape, line numbers 1, 9, 10, 99, 100, 255, 256, 32767, 32768, 65535, 65536, 2^31-1 (#line), each row holding all eight macros and five failure paths of expect_raises; every failing call observed in 13 ways (caught object, copy, copy outliving the original, move, assignment, logic_error& / exception& + dynamic_cast, rethrow, exception_ptr here and from an exited thread, nested, make_exception_ptr, sliced): msg / file compared as full C strings, line as a number, what() must contain file, decimal line and message. TOTAL what() length (c19_carry): with file and line fixed the constant what().size() - message length is measured from two reference calls, then the message length is chosen so that the whole what() text has every length in 900..1100 (thorough: up to 4400), 2^k-3..2^k+3 for k <= 16 and the 49 shortest possible lengths (four byte patterns on the 2^k+-1 rungs, one rotating elsewhere), seen through the caught object, a std::exception& and a sliced logic_error copy; the what() of the foreign exception quoted by the wrong-type failure of expect_raises walks 0..40, 800..1100 and 2^k+-3, also shifted so that the failure's own what() sits on 2^k+-3 (judged: verdict, file, line, what() contains file and line; the wording around the quotation is counted only). PRIOR HISTORIES (c19 and c19_carry): for each of the ~280 entries of the shared catalogue of earlier unrelated uses of phosg's helpers (harness/vf_history.hh: one string_printf output of every length 0..132 and 2^k+-3 up to 64 Ki / 1 Mi, runs of 5000 short outputs, join/split/fgets ladders, escapers, formatters, hash hex) plus a seeded sample of two-step histories: fresh thread -> prior -> mini-workload (c19: 72 relation cells over int/string/double with NaN, expect, expect_msg with four texts, the sixteen big-line call sites, a 4 x 7 expect_raises sub-matrix with every outcome kind; c19_carry: all site kinds + expect_msg texts whose what() is exactly as long as the prior's output -1/+0/+1, the shortest possible, 255..257, 1023..1025, 4097), judged by the same judges as the main parts. Second TU (optional build): expect_raises with E in {plain struct, derived plain struct, std::string, int, type with ambiguous std::exception base, virtual-base and diamond types, exception, runtime_error, logic_error} x fn in {returns, throws each of ten exotic/standard types}, is-a from an explicit table cross-checked against real catch clauses. distinct_nontrivial = distinct (relation, operand type, order shape, expected "
             "outcome) and (E, behaviour of fn, expected outcome) cells observed.",
     "level_text": "The input space of the statement is finite once the operand sets and the exception hierarchy are fixed, and "
                   "it is enumerated completely: every relation x operand-pair cell and all 130 expect_raises cells are "
                   "executed against the real macros and the real library code with memory monitors on. Operand types or "
                   "exception hierarchies outside the listed ones (e.g. virtual/multiple inheritance, exceptions thrown from "
-                  "destructors) are not explored.",
+                  "destructors) are not explored. Dependence of the carried texts on their TOTAL formatted length and on what the calling thread did earlier with the shared "
+                  "formatting helpers is sampled, not enumerated: every total what() length 900..1100 and around every power of two up to 2^16, and every entry of the "
+                  "prior catalogue once per run; a dependence on a length or history outside those ladders could be missed.",
     "stages": [
         # The -Wno-* flags silence, for this TU only, the diagnostics that unparenthesised operand shapes can trigger when a
         # header forgets to parenthesise a macro parameter: the broken header must compile to a wrong verdict, not to a
@@ -53,7 +55,7 @@ SPEC = {
          "optional_build": True},
     ],
     "min_evaluations": 50000,
-    "min_classes": {"quick": 700, "thorough": 700},
+    "min_classes": {"quick": 780, "thorough": 780},
     "required_classes": [
         "rel:eq:int:*", "rel:ge:int:equal:holds", "rel:ge:int:less:fails", "rel:gt:int:equal:fails", "rel:le:double:unordered:fails",
         "rel:ne:double:unordered:holds", "rel:lt:string:less:holds", "rel:eq:string:equal:holds", "rel:le:uint64:greater:fails",
@@ -107,6 +109,19 @@ SPEC = {
         "carry:history:caught-by-logic_error-ref", "carry:history:caught-by-exception-ref", "carry:history:rethrown", "carry:history:exception_ptr",
         "carry:history:exception_ptr-other-thread", "carry:history:nested", "carry:history:make_exception_ptr", "carry:history:sliced-to-logic_error",
         "carry:ctx:dtor-unwinding", "carry:ctx:thread-during-unwinding",
+        # total what() length swept densely (every value 900..1100, 2^k +- 3), foreign what() of the wrong-type failure likewise
+        "carry:what-total:len=900..909", "carry:what-total:len=1010..1019", "carry:what-total:len=1020..1029", "carry:what-total:len=1090..1099",
+        "carry:what-total:len=around-2^6", "carry:what-total:len=around-2^8", "carry:what-total:len=around-2^10", "carry:what-total:len=around-2^12",
+        "carry:what-total:len=around-2^16", "carry:what-total:len=other",
+        "carry:foreign-what:len=800..899", "carry:foreign-what:len=900..999", "carry:foreign-what:len=1000..1099", "carry:foreign-what:len=around-2^10",
+        "carry:foreign-what:len=around-2^16", "carry:foreign-what:total=around-2^10", "carry:foreign-what:total=around-2^16",
+        # prior histories (vf_history.hh): mini-workloads on a fresh thread after an earlier unrelated use of the shared helpers
+        "carry:prior:none:sites", "carry:prior:printf-len:sites", "carry:prior:printf-len:what-lengths", "carry:prior:printf-run:what-lengths",
+        "carry:prior:join:sites", "carry:prior:two-step:what-lengths",
+        "prior:none:relations", "prior:printf-len:relations", "prior:printf-len:expect_msg", "prior:printf-len:bigline", "prior:printf-len:expect_raises",
+        "prior:printf-run:expect_raises", "prior:join:relations", "prior:fgets:expect_msg", "prior:split:relations", "prior:escape:expect_raises",
+        "prior:format:relations", "prior:hash-hex:relations", "prior:two-step:relations", "prior:two-step:expect_raises",
+        "prior-raises:must-pass", "prior-raises:must-fail:returns", "prior-raises:must-fail:wrong-type", "prior-raises:must-fail:non-std-object",
     ],
     "exhaustive": {"quick": True, "thorough": True},
     "exhaustive_note": "all relation x operand-pair cells of the stated boundary sets and all 130 (E, behaviour) cells of the "
